@@ -20,7 +20,7 @@ import random
 from unittest.mock import MagicMock
 
 from harness import simnet
-from harness.acc import Accessory
+from harness.acc import Accessory, http
 
 from aiohomekit.characteristic_cache import CharacteristicCacheMemory
 from aiohomekit.controller.ip.pairing import IpPairing
@@ -72,6 +72,10 @@ def model_line(hosts, events):
     return "rc.run " + ",".join(str(h) for h in hosts) + " " + " ".join(model_token(e) for e in events)
 
 
+def model_line_of(hosts, sim):
+    return "rc.run " + ",".join(str(h) for h in hosts) + " " + " ".join(sim.model_events)
+
+
 def description(hosts):
     return HomeKitService(name="acc", id="12:34:56:00:01:0A", model="m", feature_flags=FeatureFlags(0), status_flags=StatusFlags(0), config_num=0, state_num=1,
                           category=Categories.LIGHTBULB, protocol_version="1.1", type="_hap._tcp.local.", address=host(hosts[0]), addresses=[host(h) for h in hosts], port=80)
@@ -101,6 +105,7 @@ class Sim:
         self.lines = []          # per event: observation line
         self.problems = []       # (signature, text) found by the implementation-level oracles
         self.attempts = []       # (units, [host idx])
+        self.model_events = []   # the events as the model is given them (some harness events map to a model event decided at run time)
         self.stats = {}
 
 
@@ -168,6 +173,9 @@ async def _scenario(loop, sim, hosts, events, seed):
         p = IpPairing(ctrl, acc.pairing_data([host(h) for h in hosts]))
         conn = p.connection
         conn_ref.append(conn)
+        # the caller subscribed to something in an earlier session: every new session re-subscribes inside connection_made,
+        # i.e. while the connector task is still running
+        p.subscriptions.add((1, 9))
         orig_lost = simnet.FakeTransport._lost
 
         def lost_hook(t, exc, _orig=orig_lost):
@@ -189,7 +197,30 @@ async def _scenario(loop, sim, hosts, events, seed):
             for ev in events:
                 f = ev.split(":")
                 k = f[0]
-                if k == "a":
+                mtok = model_token(ev)
+                if k in ("j", "h"):
+                    # an established session gets a reply that makes the request layer give the connection up: malformed JSON to
+                    # a JSON PUT (j) or an HTTP 470 to a TLV POST outside pair-verify (h).  For the supervisor this is the loss
+                    # of the current connection: it must be followed by a new attempt like any other loss.
+                    cur_t = conn.transport
+                    if p.is_connected and cur_t is not None:
+                        mtok = f"p:{cur_t.index}"
+                        if k == "j":
+                            acc.responder = lambda s_, m_, t_, b_: http(b'{"characteristics": [', b"application/hap+json")
+                            coro = conn.put_json("/characteristics", {"characteristics": [{"aid": 1, "iid": 9, "ev": True}]})
+                        else:
+                            acc.responder = lambda s_, m_, t_, b_: http(b"\x06\x01\x02\x07\x01\x02", code=b"470 Connection Authorization Required")
+                            coro = conn.post_tlv("/pairings", [(6, b"\x01")])
+                        try:
+                            await coro
+                        except AccessoryDisconnectedError:
+                            pass
+                        except Exception as e:  # noqa: BLE001
+                            problems.append(("request-error-wrong-exception", f"after {ev}: the request raised {type(e).__name__}"))
+                        acc.responder = None
+                    else:
+                        mtok = "p:9999"
+                elif k == "a":
                     await asyncio.sleep(int(f[1]) / UNIT)
                 elif k == "e":
                     wid = int(f[1])
@@ -241,10 +272,11 @@ async def _scenario(loop, sim, hosts, events, seed):
                 elif k == "t":
                     net.connect_outcomes.append({"r": "refused", "t": "timeout"}.get(f[1]) or ("ok", int(f[2])))
                 elif k == "v":
-                    acc.verify_mode.append(f[2] if len(f) > 2 else {"ok": "ok", "wr": "wrongid", "au": "err22", "fa": "err17", "ha": "hang"}[f[1]])
+                    acc.verify_mode.append(f[2] if len(f) > 2 else {"ok": "ok", "wr": "wrongid", "au": "err22", "fa": "err17", "ha": "hang", "ol": "oksubdrop"}[f[1]])
                 else:
                     raise ValueError("bad event " + ev)
                 await settle(loop)
+                sim.model_events.append(mtok)
                 # ---- observation
                 new = raw_attempts[n_att:]
                 n_att = len(raw_attempts)
@@ -358,11 +390,11 @@ async def _scenario(loop, sim, hosts, events, seed):
 # --------------------------------------------------------------------------- generators
 
 U = UNIT
-VER_CLASSES = ["ok", "wr", "au", "fa", "ha"]
+VER_CLASSES = ["ok", "wr", "au", "fa", "ha", "ol"]
 
 
 def ver_token(c, rng):
-    mode = {"ok": "ok", "wr": "wrongid", "au": rng.choice(AUTH_MODES), "fa": rng.choice(FAIL_MODES), "ha": "hang"}[c]
+    mode = {"ok": "ok", "wr": "wrongid", "au": rng.choice(AUTH_MODES), "fa": rng.choice(FAIL_MODES), "ha": "hang", "ol": "oksubdrop"}[c]
     return f"v:{c}:{mode}"
 
 
@@ -394,7 +426,7 @@ def gen_fault_sequences(rng, max_len, n_hosts=(1, 2, 3), sample=None):
 def gen_schedules(rng, depth, scripts=None, sample=None):
     """every schedule of external events up to `depth` after a fixed fault script"""
     import itertools
-    alpha = ["e:_:-", f"a:{3 * U // 4}", f"a:{12 * U}", "s", "x", "p:_", "d:2,3", "X", "e:_:24577", "c:_"]
+    alpha = ["e:_:-", f"a:{3 * U // 4}", f"a:{12 * U}", "s", "x", "p:_", "d:2,3", "X", "e:_:24577", "c:_", "j", "h"]
     scripts = scripts or [(["v:fa:err17", "v:wr:wrongid", "v:ha:hang"], [1, 2]), (["t:t", "v:au:err22"], [1]), (["v:wr:wrongid", "v:wr:wrongid", "t:o:0", "t:o:0", "t:r"], [1, 2, 3])]
     out = []
     seqs = [seq for d in range(1, depth + 1) for seq in itertools.product(alpha, repeat=d)]
@@ -428,7 +460,7 @@ def gen_random(rng, long_run=False):
         evs.append("t:r" if r < 0.3 else "t:t" if r < 0.45 else "t:o:%d" % rng.randrange(0, 3))
     nver = rng.randrange(0, 7) if not long_run else rng.randrange(10, 30)
     for _ in range(nver):
-        c = rng.choice(["ok", "wr", "wr", "au", "fa", "fa", "ha"]) if not long_run else rng.choice(["fa", "fa", "fa", "wr", "ha", "fa"])
+        c = rng.choice(["ok", "wr", "wr", "au", "fa", "fa", "ha", "ol"]) if not long_run else rng.choice(["fa", "fa", "fa", "wr", "ha", "fa", "ol"])
         evs.append(ver_token(c, rng))
     wid = 0
     for _ in range(rng.randrange(3, 25)):
@@ -448,8 +480,10 @@ def gen_random(rng, long_run=False):
             evs.append("x")
         elif r < 0.82:
             evs.append("X")
-        elif r < 0.92:
+        elif r < 0.9:
             evs.append("p:%d" % rng.randrange(0, 6))
+        elif r < 0.94:
+            evs.append(rng.choice(["j", "h"]))
         else:
             evs.append(ver_token(rng.choice(VER_CLASSES), rng))
     return hosts, evs
